@@ -35,3 +35,27 @@ def table_check(ctx, rule, I):
         ctx.check(ok, rule, "OperandsParser._process_operand_elem", f"class[{cls}] -> {outs or raises} (expected {row})"[:260],
                   f"operand class [{cls}] is rewritten as row {row}: {SPEC[row]}")
     return n
+
+
+def lines_parsed_independently(ctx, rule):
+    """parse_file_lines maps parse_line over every line, in order, one result per line, nothing carried between lines"""
+    from ..values import AbsList, Hole, ListV, Str, Unknown
+    from ..models import make_interp
+
+    def parse_line_summary(I, func, self_val, args, kwargs, node, fr):
+        a = args[0] if args else kwargs.get("line")
+        return Unknown(I.run.new_tag("parsed"), {"expr": f"parse_line({I.expr_of(a)})", "not_none": True})
+    I = make_interp(ctx.p, {"parse_line": parse_line_summary})
+    pfl = ctx.p.find_func("parse_file_lines")
+    lines = AbsList(Str((Hole("LINE", "line", None),)), "file lines", {})
+    paths = I.explore(lambda I: I.call_func(pfl, [lines], {}, None, None, None))
+    for p in paths:
+        v = p.value if p.kind == "return" else None
+        if isinstance(v, ListV) and v.absorbed is not None:
+            v = v.absorbed
+        empty_ok = isinstance(v, ListV) and not v.items and any(l.startswith("not ") for l in p.cond_labels())
+        ok = empty_ok or (isinstance(v, AbsList) and v.src == "file lines" and I.expr_of(v.elem) == "parse_line(<LINE>)" and not any(
+            v.flags.get(k) for k in ("filters", "order", "sliced", "dedup", "mixed", "prefix_items")))
+        extra = [e.kind for e in p.events if e.kind in ("setattr_class", "global_decl", "memo_hit", "setitem_unknown")]
+        ctx.check(ok and not extra, rule, "parse_file_lines", f"result={v!r} conds={p.cond_labels()[:3]} state={extra}"[:220],
+                  "every line is parsed on its own: the result list is parse_line(line) for each line, in order")
